@@ -254,7 +254,10 @@ theorem sweeps_pinned :
        ("liquidationsV2", "LiquidateIndividualBorrow", "skip", "atom", "pos", "none"),
        ("liquidationsV2", "LiquidateForSurplusAndDebt", "start", "and", "neg", "none"),
        ("auction", "SurplusActivator", "start", "and", "neg", "neg"),
-       ("auction", "DebtActivator", "start", "and", "neg", "neg")] := by decide +kernel
+       ("auction", "DebtActivator", "start", "and", "neg", "neg"),
+       ("rewards", "DistributeExtRewardLocker", "skip", "atom", "pos", "none"),
+       ("rewards", "DistributeExtRewardVault", "skip", "atom", "pos", "none"),
+       ("rewards", "DistributeExtRewardLend", "skip", "atom", "pos", "none")] := by decide +kernel
 
 /-! ## composition with the execution model -/
 
